@@ -1,0 +1,58 @@
+//go:build verif
+
+package natives
+
+import (
+	"sort"
+	"strings"
+	"unsafe"
+)
+
+// Verification hook: compiled only with the "verif" build tag.
+//
+// VerifSetFS makes FS serve exactly the given files (slash-separated paths
+// relative to the embed root, for example "src/time/time.go") instead of the
+// embedded overlay sources, so the real overlay loader can be driven with
+// generated overlays. It returns a function that restores the embedded files.
+// Not safe for use concurrently with readers of FS.
+func VerifSetFS(files map[string]string) (restore func()) {
+	type file struct {
+		name string
+		data string
+		hash [16]byte
+	}
+	type fs struct{ files *[]file }
+	split := func(name string) (dir, elem string) {
+		name = strings.TrimSuffix(name, "/")
+		i := strings.LastIndexByte(name, '/')
+		if i < 0 {
+			return ".", name
+		}
+		return name[:i], name[i+1:]
+	}
+	seen := map[string]bool{}
+	var list []file
+	for name, data := range files {
+		list = append(list, file{name: name, data: data})
+		for dir, _ := split(name); dir != "." && !seen[dir]; dir, _ = split(dir) {
+			seen[dir] = true
+			list = append(list, file{name: dir + "/"})
+		}
+	}
+	sort.Slice(list, func(i, j int) bool {
+		di, ei := split(list[i].name)
+		dj, ej := split(list[j].name)
+		return di < dj || di == dj && ei < ej
+	})
+	old := FS
+	*(*fs)(unsafe.Pointer(&FS)) = fs{files: &list}
+	for name, data := range files {
+		// The layout of embed.FS is an implementation detail of the standard library: fail loudly if it moved.
+		if got, err := FS.ReadFile(name); err != nil || string(got) != data {
+			FS = old
+			panic("natives.VerifSetFS: embed.FS layout not understood")
+		}
+		break
+	}
+	return func() { FS = old }
+}
